@@ -1694,14 +1694,21 @@ func builtinInsertSorted(env *LEnv, args *LVal) *LVal {
 	if !sortErr.IsNil() {
 		return sortErr
 	}
+	// Size the result from the cells the search ran over, not from the
+	// sequence as it is NOW: the predicate and the key function are arbitrary
+	// lisp, and one that grows (append!) the very vector being searched made
+	// list.Len() disagree with inCells -- the longer result kept Go-nil cells
+	// at its end, and the next reader of that value (the printer)
+	// dereferenced nil.
+	n := len(inCells)
 	var v *LVal
 	var cells []*LVal
 	switch typespec.Str {
 	case "vector":
-		v = Array(QExpr([]*LVal{Int(1 + list.Len())}), nil)
+		v = Array(QExpr([]*LVal{Int(1 + n)}), nil)
 		cells = seqCells(v)
 	case "list":
-		cells = make([]*LVal, 1+list.Len())
+		cells = make([]*LVal, 1+n)
 		v = QExpr(cells)
 	default:
 		return env.Errorf("type specifier is invalid: %v", typespec)
